@@ -1,6 +1,7 @@
-(* EditDistanceProofs.v — facts about the Levenshtein distance `lev` and the correctness of the
-   two-row u8 Wagner–Fischer model (`wf_min_alloc`) up to length 254, for any content of the reused
-   buffers and in both build modes; the refutation witnesses at 255 / 256. *)
+(* EditDistanceProofs.v — facts about the Levenshtein distance `lev` and the correctness of
+   `wf_min_alloc` (edit_distance_min_alloc after fix 7a7de79) for ALL strings: two-row u8 Wagner–Fischer
+   up to length 254 (any content of the reused buffers, both build modes), usize rows beyond, result
+   saturated at 255.  History: the witnesses of the pre-fix function at 255 / 256 characters. *)
 Require Import Base EditDistance ListLemmas.
 From Coq Require Import Lia.
 
@@ -371,21 +372,21 @@ Proof.
 Qed.
 
 (* ------------------------------------------------------------------------------------------ *)
-(** * the theorem: for lengths <= 254 the u8 two-row algorithm returns the Levenshtein distance —
+(** * the u8 path: for lengths <= 254 the u8 two-row algorithm returns the Levenshtein distance —
       in the debug and in the release build, whatever the reused buffers contain *)
 Lemma resize_length {A} (l : list A) n v : length (resize l n v) = n.
 Proof.
   unfold resize. rewrite app_length, firstn_length, repeat_length. lia.
 Qed.
 
-Theorem wf_min_alloc_correct dbg s t buf_a buf_b :
+(* the u8 path (both strings of at most 254 characters) *)
+Lemma wf_min_alloc_short dbg s t buf_a buf_b :
   length s <= 254 -> length t <= 254 ->
   exists buf_a' buf_b', wf_min_alloc dbg s t buf_a buf_b = Ok (lev s t, buf_a', buf_b').
 Proof.
   intros Hs Ht. unfold wf_min_alloc.
-  replace ((255 <? length s) || (255 <? length t)) with false
+  replace ((254 <? length s) || (254 <? length t)) with false
     by (symmetry; apply orb_false_iff; split; apply Nat.ltb_ge; lia).
-  rewrite andb_false_r.
   rewrite as_u8_small by lia.
   rewrite <- (rowD_nil s).
   destruct (wf_outer_ok dbg s t Hs Ht (length t) 0 (resize buf_b (length s + 1) 0) ltac:(lia)
@@ -395,47 +396,163 @@ Proof.
   rewrite firstn_all. eauto.
 Qed.
 
-Theorem wf_u8_correct dbg s t :
-  length s <= 254 -> length t <= 254 -> wf_u8 dbg s t = Ok (lev s t).
+(* ------------------------------------------------------------------------------------------ *)
+(** * edit_distance_long: the usize rows compute lev for every pair of strings *)
+Lemma firstn_app_len {A} (l1 l2 : list A) : firstn (length l1) (l1 ++ l2) = l1.
+Proof. induction l1 as [|x l1 IH]; cbn [length firstn app]; [now destruct l2|now rewrite IH]. Qed.
+
+Lemma nth_error_app_len {A} (l1 l2 : list A) a : nth_error (l1 ++ a :: l2) (length l1) = Some a.
+Proof. induction l1 as [|x l1 IH]; cbn [length app nth_error]; [reflexivity|exact IH]. Qed.
+
+Lemma wfl_inner_ok s tp b : forall rest sp cur,
+  s = sp ++ rest -> length cur = S (length s) ->
+  (forall i, i <= length sp -> nth_error cur i = Some (lev (firstn i s) (tp ++ [b]))) ->
+  exists cur', wfl_inner b (rowD s tp) cur (length sp) rest = Ok cur' /\ length cur' = S (length s) /\
+    forall i, i <= length s -> nth_error cur' i = Some (lev (firstn i s) (tp ++ [b])).
 Proof.
-  intros Hs Ht. unfold wf_u8.
-  destruct (wf_min_alloc_correct dbg s t [] [] Hs Ht) as (a & b & E). rewrite E. reflexivity.
+  induction rest as [|a rest IH]; intros sp cur Es Hlen Hinv.
+  - exists cur. cbn [wfl_inner]. repeat split; [exact Hlen|]. intros i Hi. apply Hinv.
+    rewrite Es, app_nil_r in Hi. exact Hi.
+  - cbn [wfl_inner]. set (k := length sp).
+    assert (Hk : k < length s) by (rewrite Es, app_length; cbn [length]; unfold k; lia).
+    assert (Ea : nth_error s k = Some a) by (rewrite Es; apply nth_error_app_len).
+    rewrite Nat.add_1_r.
+    rewrite (nth_chk_ok _ _ _ (rowD_nth s tp (S k) ltac:(lia))). cbn [bind].
+    rewrite (nth_chk_ok _ _ _ (Hinv k ltac:(unfold k; lia))). cbn [bind].
+    rewrite (nth_chk_ok _ _ _ (rowD_nth s tp k ltac:(lia))). cbn [bind].
+    destruct (set_nth_ok cur (S k)
+                (Nat.min (Nat.min (lev (firstn (S k) s) tp + 1) (lev (firstn k s) (tp ++ [b]) + 1))
+                         (lev (firstn k s) tp + cost a b)) ltac:(lia)) as (cur1 & E & L1 & N1 & O1).
+    rewrite E. cbn [bind].
+    assert (Hcell : lev (firstn (S k) s) (tp ++ [b])
+                    = Nat.min (Nat.min (lev (firstn (S k) s) tp + 1) (lev (firstn k s) (tp ++ [b]) + 1))
+                              (lev (firstn k s) tp + cost a b)).
+    { rewrite (firstn_snoc_nth _ _ _ Ea). apply lev_snoc. }
+    specialize (IH (sp ++ [a]) cur1).
+    rewrite app_length in IH. cbn [length] in IH. rewrite Nat.add_1_r in IH. fold k in IH.
+    apply IH; [rewrite <- app_assoc; exact Es|lia|].
+    intros i Hi. destruct (Nat.eq_dec i (S k)) as [->|Hne].
+    + rewrite N1. f_equal. symmetry. exact Hcell.
+    + rewrite O1 by exact Hne. apply Hinv. unfold k in *. lia.
+Qed.
+
+Lemma wfl_outer_ok s t : forall rest tp cur,
+  t = tp ++ rest -> length cur = S (length s) ->
+  exists cur', wfl_outer s (rowD s tp) cur (length tp) rest = Ok (rowD s t, cur') /\ length cur' = S (length s).
+Proof.
+  induction rest as [|b rest IH]; intros tp cur Et Hlen.
+  - exists cur. cbn [wfl_outer]. rewrite Et, app_nil_r. split; [reflexivity|exact Hlen].
+  - cbn [wfl_outer].
+    destruct (set_nth_ok cur 0 (length tp + 1) ltac:(lia)) as (cur0 & E & L0 & N0 & O0).
+    rewrite E. cbn [bind].
+    destruct (wfl_inner_ok s tp b s [] cur0 eq_refl ltac:(lia)) as (cur1 & E1 & L1 & N1).
+    { intros i Hi. cbn [length] in Hi. assert (i = 0) as -> by lia. rewrite N0. f_equal.
+      cbn [firstn]. rewrite lev_nil_l, app_length. reflexivity. }
+    cbn [length] in E1. rewrite E1. cbn [bind].
+    assert (Hrow : cur1 = rowD s (tp ++ [b])).
+    { apply nth_error_ext; [now rewrite L1, rowD_length|].
+      intros i Hi. rewrite N1 by lia. rewrite rowD_nth by lia. reflexivity. }
+    rewrite Hrow.
+    specialize (IH (tp ++ [b]) (rowD s tp)).
+    rewrite app_length in IH. cbn [length] in IH. rewrite Nat.add_1_r in IH.
+    apply IH; [rewrite <- app_assoc; exact Et|apply rowD_length].
+Qed.
+
+Theorem wf_long_correct s t : wf_long s t = Ok (lev s t).
+Proof.
+  unfold wf_long. rewrite <- (rowD_nil s).
+  destruct (wfl_outer_ok s t t [] (repeat 0 (length s + 1)) eq_refl
+              ltac:(rewrite repeat_length; lia)) as (cur' & E & _).
+  cbn [length] in E. rewrite E. cbn [bind].
+  rewrite (nth_chk_ok _ _ _ (rowD_nth s t (length s) ltac:(lia))).
+  now rewrite firstn_all.
 Qed.
 
 (* ------------------------------------------------------------------------------------------ *)
-(** * the bound is sharp: witnesses at 255 and 256 (F19) *)
+(** * the theorem (after fix 7a7de79): for ALL strings, any content of the reused buffers, debug and
+      release arithmetic, edit_distance_min_alloc returns the Levenshtein distance saturated at
+      u8::MAX = 255 — in particular the exact distance whenever that is at most 255 *)
+Theorem wf_min_alloc_correct dbg s t buf_a buf_b :
+  exists buf_a' buf_b', wf_min_alloc dbg s t buf_a buf_b = Ok (Nat.min (lev s t) 255, buf_a', buf_b').
+Proof.
+  destruct (Nat.le_gt_cases (length s) 254) as [Hs|Hs]; [destruct (Nat.le_gt_cases (length t) 254) as [Ht|Ht]|].
+  - destruct (wf_min_alloc_short dbg s t buf_a buf_b Hs Ht) as (a & b & E).
+    exists a, b. rewrite E. pose proof (lev_le_max s t). repeat f_equal. lia.
+  - unfold wf_min_alloc.
+    replace ((254 <? length s) || (254 <? length t)) with true
+      by (symmetry; apply orb_true_iff; right; apply Nat.ltb_lt; lia).
+    rewrite wf_long_correct. cbn [bind]. eauto.
+  - unfold wf_min_alloc.
+    replace ((254 <? length s) || (254 <? length t)) with true
+      by (symmetry; apply orb_true_iff; left; apply Nat.ltb_lt; lia).
+    rewrite wf_long_correct. cbn [bind]. eauto.
+Qed.
+
+Theorem wf_u8_correct dbg s t : wf_u8 dbg s t = Ok (Nat.min (lev s t) 255).
+Proof.
+  unfold wf_u8. destruct (wf_min_alloc_correct dbg s t [] []) as (a & b & E). rewrite E. reflexivity.
+Qed.
+
+Corollary wf_min_alloc_exact dbg s t buf_a buf_b : lev s t <= 255 ->
+  exists buf_a' buf_b', wf_min_alloc dbg s t buf_a buf_b = Ok (lev s t, buf_a', buf_b').
+Proof.
+  intros H. destruct (wf_min_alloc_correct dbg s t buf_a buf_b) as (a & b & E).
+  exists a, b. rewrite E. repeat f_equal. lia.
+Qed.
+
+(* the statement pinned in Properties/C15.v *)
+Theorem wf_min_alloc_total_correct dbg s t buf_a buf_b :
+  (exists buf_a' buf_b', wf_min_alloc dbg s t buf_a buf_b = Ok (Nat.min (lev s t) 255, buf_a', buf_b')) /\
+  (lev s t <= 255 -> exists buf_a' buf_b', wf_min_alloc dbg s t buf_a buf_b = Ok (lev s t, buf_a', buf_b')).
+Proof. split; [apply wf_min_alloc_correct|apply wf_min_alloc_exact]. Qed.
+
+(* ------------------------------------------------------------------------------------------ *)
+(** * the saturation is visible: 256 characters against "b" are at distance 256, reported as 255 *)
 Definition a_n (n : nat) : text := repeat 97%N n.      (* "aaa…a" *)
 Definition b_1 : text := [98%N].                       (* "b" *)
 
-(* debug build, source of 255 characters: previous_row[255] + 1 overflows *)
-Lemma wf_255_debug_overflow : wf_u8 true (a_n 255) b_1 = Panic POverflow.
-Proof. vm_compute. reflexivity. Qed.
-
-(* debug build, target of 255 characters: current_row[0] = 255, then current_row[0] + 1 overflows *)
-Lemma wf_255_target_debug_overflow : wf_u8 true b_1 (a_n 255) = Panic POverflow.
-Proof. vm_compute. reflexivity. Qed.
-
-(* release build, source of 255 characters: the sum wraps to 0 and the distance is under-reported *)
-Lemma wf_255_release_wraps : wf_u8 false (a_n 255) b_1 = Ok 0.
-Proof. vm_compute. reflexivity. Qed.
+Lemma lev_256_1 : lev (a_n 256) b_1 = 256.
+Proof.
+  assert (H : wf_long (a_n 256) b_1 = Ok 256) by (vm_compute; reflexivity).
+  rewrite wf_long_correct in H. now injection H.
+Qed.
 
 Lemma lev_255_1 : 254 <= lev (a_n 255) b_1.
 Proof. pose proof (lev_len (a_n 255) b_1) as [H _]. unfold a_n in *. rewrite repeat_length in H. cbn [b_1 length] in H. lia. Qed.
 
+Lemma wf_saturates : wf_u8 true (a_n 256) b_1 = Ok 255 /\ wf_u8 false (a_n 256) b_1 = Ok 255 /\ lev (a_n 256) b_1 = 256.
+Proof.
+  rewrite !wf_u8_correct, lev_256_1. repeat split.
+Qed.
+
+(* ------------------------------------------------------------------------------------------ *)
+(** * HISTORY (before fix 7a7de79, F19): the u8 rows were used for every length; witnesses at 255 / 256 *)
+(* debug build, source of 255 characters: previous_row[255] + 1 overflows *)
+Lemma wf_255_debug_overflow : wf_u8_old true (a_n 255) b_1 = Panic POverflow.
+Proof. vm_compute. reflexivity. Qed.
+
+(* debug build, target of 255 characters: current_row[0] = 255, then current_row[0] + 1 overflows *)
+Lemma wf_255_target_debug_overflow : wf_u8_old true b_1 (a_n 255) = Panic POverflow.
+Proof. vm_compute. reflexivity. Qed.
+
+(* release build, source of 255 characters: the sum wraps to 0 and the distance is under-reported *)
+Lemma wf_255_release_wraps : wf_u8_old false (a_n 255) b_1 = Ok 0.
+Proof. vm_compute. reflexivity. Qed.
+
 (* 256 characters: the debug build stops at the assertion, the release build truncates the row
    (`row_width as u8` = 0) and indexes past its end *)
-Lemma wf_256_debug_assert : wf_u8 true (a_n 256) b_1 = Panic PUnwrap.
+Lemma wf_256_debug_assert : wf_u8_old true (a_n 256) b_1 = Panic PUnwrap.
 Proof. vm_compute. reflexivity. Qed.
 
-Lemma wf_256_release_index : wf_u8 false (a_n 256) b_1 = Panic PIndex.
+Lemma wf_256_release_index : wf_u8_old false (a_n 256) b_1 = Panic PIndex.
 Proof. vm_compute. reflexivity. Qed.
 
-Theorem wf_u8_refuted :
-  (exists s t, length s = 255 /\ length t = 1 /\ wf_u8 true s t = Panic POverflow) /\
-  (exists s t, length s = 1 /\ length t = 255 /\ wf_u8 true s t = Panic POverflow) /\
-  (exists s t, length s = 255 /\ length t = 1 /\ wf_u8 false s t = Ok 0 /\ 254 <= lev s t) /\
-  (exists s t, length s = 256 /\ wf_u8 true s t = Panic PUnwrap) /\
-  (exists s t, length s = 256 /\ wf_u8 false s t = Panic PIndex).
+Lemma wf_u8_old_refuted :
+  (exists s t, length s = 255 /\ length t = 1 /\ wf_u8_old true s t = Panic POverflow) /\
+  (exists s t, length s = 1 /\ length t = 255 /\ wf_u8_old true s t = Panic POverflow) /\
+  (exists s t, length s = 255 /\ length t = 1 /\ wf_u8_old false s t = Ok 0 /\ 254 <= lev s t) /\
+  (exists s t, length s = 256 /\ wf_u8_old true s t = Panic PUnwrap) /\
+  (exists s t, length s = 256 /\ wf_u8_old false s t = Panic PIndex).
 Proof.
   repeat split.
   - exists (a_n 255), b_1. repeat split; first [apply repeat_length|apply wf_255_debug_overflow|reflexivity].
